@@ -28,7 +28,9 @@ CHECK = dict(
     technique="stateless model checking of the wired pipeline: exhaustive enumeration of all executions with a bounded number of deviations "
               "(drop, duplicate, out-of-order delivery of a wire packet, node crash, equivocating partial signature) from FIFO delivery, n real "
               "nodes (real consensus, dutydb, parsigdb, parsigex, sigagg, aggsigdb, bcast wired by core.Wire) in one virtual-time bubble on an in-memory network, "
-              "judged at the beacon-node stub behind the real core/bcast, at Broadcaster.Broadcast and at AggSigDB.Store",
+              "judged at the beacon-node stub behind the real core/bcast, at Broadcaster.Broadcast and at AggSigDB.Store; one dimension of the enumeration is the "
+              "duty type (attester, proposer, aggregator through consensus; sync committee message, builder registration, voluntary exit, randao without), for the "
+              "duty types without consensus the complete product of camp splits of the nodes' inputs and per-peer plans of a faulty node is enumerated",
     claim="n=3 and n=4, attester duty, candidate data equal / all distinct / leader differs, optionally one node that also sends a partial "
           "signature made with its own share over other data, or one carrying such a signature on the common data, or floods every peer with one genuine "
           "partial signature of its own followed by the same signature under every other share index; or sends a GENUINE partial signature of its own share over "
@@ -41,11 +43,34 @@ CHECK = dict(
           "and position bit, from electra on the validator index, else the committee bits), at every Broadcaster.Broadcast and AggSigDB.Store on every node: signature valid under THAT validator's group "
           "key for the object's own signing root, one signing root per duty and validator across all nodes and time. "
           "Wiring variants (app/app.go): aggsigdb v2 with plain core.Wire (as before) and, in four (thorough: five more) configurations, the production default - aggsigdb v1 (NewMemDB actor) and "
-          "core.WithAsyncRetry(retry.New(deadlineFunc)), i.e. fetch, participate, propose, the parsigex broadcast and the beacon-node broadcast run asynchronously and are retried until the duty deadline",
-    trusted="fakenet (the real p2p.Send and stream handlers run against it), stub scheduler/fetcher/validator client/beacon spec; real BLS and "
-            "secp256k1 throughout",
-    rule="DFS over deviation placements with prefix replay; non-trivial class = (n, inputs, deviations used, objects broadcast)",
+          "core.WithAsyncRetry(retry.New(deadlineFunc)), i.e. fetch, participate, propose, the parsigex broadcast and the beacon-node broadcast run asynchronously and are retried until the duty deadline "
+          "(a crashed node's retryer is shut down with it, every retryer at the end of an execution, as app.go does). "
+          "DUTY-TYPE DIMENSION (same explorer, deviation alphabet and oracle; the beacon stub's signing domain depends on the epoch: one fork boundary at epoch 1, all duties in epoch 0). "
+          "PROPOSER through consensus: the nodes' fetchers hand different candidate blocks (graffiti and fee recipient differ) as deneb full block contents or as electra blinded blocks "
+          "(thorough: also fulu full, capella blinded); the validator-client stub signs the block its own node serves through DutyDB.AwaitProposal; the beacon stub records SubmitProposal / "
+          "SubmitBlindedProposal and attributes by proposer index; Byzantine deviations: a partial signature of its own share over ITS OWN candidate (to all / to one peer), over a third block, "
+          "the common block carrying a signature over another block, the relabel flood, and (full blocks) the common block / its own block with other blobs and KZG proofs (outside the block root); "
+          "five configurations (n=3 blinded distinct; n=4 deneb equal byz; n=4 deneb distinct; n=4 blinded leader-differs byz; n=4 deneb distinct byz with aggsigdb v1 + WithAsyncRetry), every execution with "
+          "<=1 deviation (thorough: <=2 for n=3 blinded distinct and n=3 deneb leader-differs, fulu full and capella blinded with <=1, and - as the last configuration of the run, as far as the time budget reaches - "
+          "<=2 for n=4 deneb equal with the Byzantine node). "
+          "AGGREGATOR through consensus on the aggregate attestation (candidates = aggregates of different participants over the same attestation data; deneb and electra aggregate-and-proof; "
+          "beacon stub SubmitAggregateAttestations, attributed by aggregator index), two configurations with <=1 deviation (thorough: + n=3 electra with <=2), the same Byzantine deviations (no unsigned fields exist). "
+          "Duty types WITHOUT consensus - SYNC COMMITTEE MESSAGE (two validators in one set, the nodes report different block roots; beacon stub SubmitSyncCommitteeMessages, attributed by validator index, domain of the "
+          "message's own slot), BUILDER REGISTRATION (fee recipient and timestamp differ per camp; never expires; core/bcast does not submit it in this version, so it is judged at Broadcast and AggSigDB.Store only), "
+          "VOLUNTARY EXIT (two validators; never expires; beacon stub SubmitVoluntaryExit) and RANDAO (signed epoch; not submitted): the validator clients submit on their own, nothing is fetched or agreed. "
+          "Complete product per duty type and per wiring variant (plain / aggsigdb v1 + WithAsyncRetry): n=3 (t=2, f=0: no faulty node, no crash) every set partition of the 3 nodes into camps signing different objects "
+          "(5; 1 for exit and randao, whose honest clients cannot differ); n=4 (t=3) all honest, every set partition of the 4 nodes (15; 1); n=4 with the validator client of node 3 replaced by the adversary: every "
+          "partition of the 3 honest nodes (5; 1) x every plan of what the adversary sends each peer with its own key share - root A or root B per peer (8 plans, e.g. A to some peers and B to the others), object A "
+          "carrying its signature over B, and for sync messages a genuine signature over root A in a message with the other validator's index / no validator's index / the next slot / the same slot one fork later "
+          "(another signing domain) - x {adversary's messages sent before, after the honest ones}; each scenario with and without node 0's validator client signing late: 1200 scenarios, each run without deviation (quick) / "
+          "with every <=1 deviation (thorough); 13 selected scenarios (two-camp splits 2+1 with the adversary in both camps, all distinct, 2+2, n=3 2+1, the unsigned-field plans, both wirings) with every <=1 (thorough <=2) deviation. "
+          "Expected and counted: with n=4 a 2+2 or all-distinct split emits nothing, never more than one signing root per duty and validator is emitted cluster-wide",
+    trusted="fakenet (the real p2p.Send and stream handlers run against it), stub scheduler/fetcher/validator client/beacon spec (one fork boundary); real BLS and "
+            "secp256k1 throughout; bls.Sign.VerifyByte memoised by complete argument bytes (splice of tbls/herumi.go, harness/tbls/zz_verif_blsmemo.go)",
+    rule="DFS over deviation placements with prefix replay; non-trivial class = (n, inputs, deviations used, objects broadcast); for the duty-type dimension (duty, version, n, camps, plan, placement, late node, wiring, "
+         "deviations used, objects broadcast, distinct signing roots emitted)",
     assumptions=ENUMX_ASSUME + ["whole-system interleavings are deviation-bounded, not exhaustive (DESIGN.md §5 C01)",
-                                "goroutine scheduling inside one delivery step is left to the Go runtime (GOMAXPROCS=1, pinned select/map order)"],
+                                "goroutine scheduling inside one delivery step is left to the Go runtime (GOMAXPROCS=1, pinned select/map order)",
+                                "the validator API is a stub (what a validator client signs reaches parsigdb directly), so its own checks of submissions are outside this check (C10)"],
     budget_s={"quick": 100, "thorough": 1500},
 )
